@@ -292,7 +292,12 @@ def main(mod, argv=None):
     for v in merged.violations:
         by_key.setdefault(v["key"], []).append(v)
     exit_code = 0
-    os.makedirs(os.path.join(VERIF, "replays"), exist_ok=True)
+    # mutant runs (tools/run_mutants.py) redirect evidence and replays
+    outdir = os.environ.get("VERIF_EVIDENCE_DIR")
+    replay_dir = os.path.join(outdir, "replays") if outdir else \
+        os.path.join(VERIF, "replays")
+    evidence_dir = outdir or os.path.join(VERIF, "evidence")
+    os.makedirs(replay_dir, exist_ok=True)
     new_violations = 0
     for key in sorted(by_key):
         vs = by_key[key]
@@ -305,7 +310,7 @@ def main(mod, argv=None):
         name = "%s-%s.json" % (prop, hashlib.sha1(json.dumps(
             [key, v["case"]], sort_keys=True, default=repr).encode()
         ).hexdigest()[:12])
-        path = os.path.join(VERIF, "replays", name)
+        path = os.path.join(replay_dir, name)
         with open(path, "w") as f:
             json.dump(dict(property=prop, check=modname, **v), f, indent=1,
                       default=repr)
@@ -349,8 +354,8 @@ def main(mod, argv=None):
     ev = dict(property_id=prop, tier=tier, seed=seed, level=mod.LEVEL,
               coverage=coverage, assumptions=list(mod.ASSUMPTIONS),
               wall_s=round(time.time() - t0, 2), violations=new_violations)
-    os.makedirs(os.path.join(VERIF, "evidence"), exist_ok=True)
-    evpath = os.path.join(VERIF, "evidence", prop + ".json")
+    os.makedirs(evidence_dir, exist_ok=True)
+    evpath = os.path.join(evidence_dir, prop + ".json")
     with open(evpath + ".tmp", "w") as f:
         json.dump(ev, f, indent=1, default=repr)
     os.replace(evpath + ".tmp", evpath)
